@@ -87,6 +87,16 @@ def discharge(ob, timeout_ms=None, want_model=True, rlimit=None, _split=True, _q
         # another instance of this obligation is already open, or this run has already spent a long
         # time on obligations that do not verify: one small attempt (can still refute)
         plan = plan[:1]
+    walled = []  # attempts that ended on the wall clock, not on their rlimit (load-dependent)
+
+    def _note(sol, c0_, lim_, what):
+        try:
+            used = int(sol.statistics().get_key_value("rlimit count")) - c0_
+        except Exception:
+            used = 0
+        if used < lim_ - 1000 and ("canceled" in sol.reason_unknown() or "timeout" in sol.reason_unknown()):
+            walled.append(what)
+
     # attempt 0: a short one as is (most obligations need well under a million units)
     if small > FIRST_RLIMIT:
         plan.insert(0, (0, FIRST_RLIMIT, FIRST_WALL_MS))
@@ -103,6 +113,7 @@ def discharge(ob, timeout_ms=None, want_model=True, rlimit=None, _split=True, _q
         if r != z3.unknown:
             plan = []
         else:
+            _note(s, c0, lim, "first")
             plan = plan[1:]
     # attempt 1: nonlinear operations abstracted to uninterpreted functions (sound for `unsat`)
     cache, any_change = {}, False
@@ -123,7 +134,10 @@ def discharge(ob, timeout_ms=None, want_model=True, rlimit=None, _split=True, _q
         s.add(z3.Not(g2))
         c0 = _count()
         sa = s
-        if sa.check() == z3.unsat:
+        ra = sa.check()
+        if ra == z3.unknown:
+            _note(sa, c0, small, "abstraction")
+        if ra == z3.unsat:
             ob.seconds, ob.backend, ob.result = time.time() - t, "z3 (nonlinear terms abstracted)", "proved"
             try:
                 ob.units = max(0, int(s.statistics().get_key_value("rlimit count")) - c0)
@@ -151,6 +165,8 @@ def discharge(ob, timeout_ms=None, want_model=True, rlimit=None, _split=True, _q
         budget_used = lim
         if r != z3.unknown:
             break
+        if (seed, lim, wall) != plan[-1]:
+            _note(s, c0, lim, "seed %d" % seed)
     ob.seconds = time.time() - t
     ob.backend = "z3"
     if r != z3.unsat:
@@ -169,7 +185,11 @@ def discharge(ob, timeout_ms=None, want_model=True, rlimit=None, _split=True, _q
     else:
         ob.result = "open"
         why = s.reason_unknown()
-        if ob.units >= budget_used - 1000:
+        if ob.units >= budget_used - 1000 and walled:
+            # an earlier attempt was cut by the wall clock: with less load it might have succeeded,
+            # so this is not a deterministic failure - undecided, never a violation
+            why = "timeout (attempts cut by the wall clock: %s)" % ", ".join(walled)
+        elif ob.units >= budget_used - 1000:
             why = "rlimit-exhausted (%d units)" % budget_used
         elif "canceled" in why or "timeout" in why:
             why = "timeout"
